@@ -2,7 +2,8 @@ from props import KERNEL_TB, HARNESS_TB
 
 PROP = dict(
     title="Savings and fee books are backed: locker balances and collector net fees",
-    lean_modules=["Comdex.Props.C13"],
+    lean_modules=["Comdex.Props.C13", "Comdex.Props.C13Effects"],
+    gen=["effects"],
     namespaces=["Comdex.C13"],
     required_theorems=["Comdex.C13.deposited_eq_sum_netbalance", "Comdex.C13.locker_custody_ge_deposited",
                        "Comdex.C13.locker_custody_ge_each_deposited", "Comdex.C13.withdraw_pays_exactly",
@@ -26,9 +27,20 @@ PROP = dict(
                        "Comdex.C13.gen1_close_keeps_books", "Comdex.C13.gen1_close_collector_effect",
                        "Comdex.C13.gen1_begin_block_keeps_books", "Comdex.C13.gen1_bids_keep_books",
                        # second-generation liquidation penalty: exact since fix d8b6c2e (finding D34); what the unrepaired code did
-                       "Comdex.C13.v2_penalty_exact", "Comdex.C13.v2_penalty_before_fix_counterexample"],
+                       "Comdex.C13.v2_penalty_exact", "Comdex.C13.v2_penalty_before_fix_counterexample",
+                       # effect skeleton regenerated from the Go source (Props/C13Effects.lean): locker messages and vault fee inflows tied
+                       # to named op lists of the model, collector / rewards entry points pinned
+                       "Comdex.C13.reward_bank", "Comdex.C13.create_bank", "Comdex.C13.deposit_bank", "Comdex.C13.withdraw_bank",
+                       "Comdex.C13.close_bank", "Comdex.C13.rewardCalc_bank", "Comdex.C13.locker_go_all", "Comdex.C13.locker_effects",
+                       "Comdex.C13.feeVault_runs", "Comdex.C13.feeClose_runs", "Comdex.C13.vault_fee_inflows",
+                       "Comdex.C13.collector_pins", "Comdex.C13.locker_table"],
     harness_tests=["TestC13"],
     trusted_base=[KERNEL_TB, HARNESS_TB,
+                  "extract/effects (go/ast, no type checking): ordered bank calls / record writes of the locker messages, the vault handlers' "
+                  "transfers into the collector and the collector / rewards entry points, texts normalised; tied by Props/C13Effects.lean to op "
+                  "lists that are PROVED to be what Model/Locker.lean's step does (semantic anchor, the model file is not edited) through a "
+                  "reviewed role table (5 texts) and condition table (4 patterns); GetAmountFromCollector, WasmMsgGetSurplusFund, "
+                  "LockerIterateRewards, CalculateLockerRewards only pinned against a literal (golden skeleton); amounts not compared",
                   "Model/Locker.lean is hand-written from x/locker/keeper/msg_server.go, x/locker/keeper/locker.go, "
                   "x/rewards/keeper/rewards.go:538-637, x/collector/keeper/collector.go, the fee call sites of x/vault, x/auction, "
                   "x/auctionsV2, x/liquidationsV2; tied by replaying every generated message / keeper call on the real app and "
